@@ -16,7 +16,7 @@ CONSTANTS
   Valids = {TRUE}
   MaxFrags = 4
   Scheds = {0, 1}
-  Poolings = {0, 1}
+  Poolings = {0}
   Variant = "design"
 INVARIANT Inv_Conservation
 CONSTRAINT Emit
